@@ -319,7 +319,7 @@ def SimpleView.points (v : SimpleView) : List Point :=
 
 /-- the flag-expansion loop of `read_points_fast`: `remaining = n_points - i > 0`.
 Returns the flags written (a prefix of the output buffer) and the flag bytes consumed;
-`none` = `Err(OutOfBounds)` (a repeat flag at the end of the `n_points`-byte window). -/
+`none` = `Err(OutOfBounds)` (a repeat flag at the end of the flag window). -/
 def fastFlags : List Nat → Nat → Option (List Nat × Nat)
   | [], _ => some ([], 0)
   | f :: rest, remaining =>
@@ -360,14 +360,17 @@ def fastCoords (short same : Nat) : List Nat → List Nat → Int → Option (Li
       (fastCoords short same fs cur' acc').map (fun p => (acc' :: p.1, p.2))
 
 /-- `SimpleGlyph::read_points_fast::<i32>` on zero-initialised buffers of length `num_points`:
-`(x, y, flag & ON_CURVE)` per point. -/
+`(x, y, flag & ON_CURVE)` per point.  Since `fix:` d12a1b2 the flag window is
+`n_points.saturating_mul(2).min(remaining)` bytes (a legal flag array takes up to two bytes per
+point) and flags that end before every point has one are `Err(OutOfBounds)` (`i != n_points`). -/
 def SimpleView.readPointsFast (v : SimpleView) : Option (List (Int × Int × Nat)) :=
   let n := v.numPoints
-  let window := v.glyphData.take (min n v.glyphData.length)
+  let window := v.glyphData.take (min (2 * n) v.glyphData.length)
   match (if n = 0 then some ([], 0) else fastFlags window n) with
   | none => none
   | some (fl, nread) =>
-    let flags := fl ++ List.replicate (n - fl.length) 0
+    if fl.length ≠ n then none else
+    let flags := fl
     match fastCoords X_SHORT X_SAME flags (v.glyphData.drop nread) 0 with
     | none => none
     | some (xs, cur) =>
